@@ -1,10 +1,356 @@
-import Irc.Inv
-import Irc.Lemmas.Frame
+/-
+  C06 — "When a registered connection ends for any reason - QUIT, the client closing or resetting the
+  socket at any moment, KILL, ping timeout, a fatal protocol error - the user disappears from every
+  channel roster, rank list and WALLOPS audience, its nickname is immediately available again, a WHOWAS
+  record of it is kept, and channels it leaves empty vanish unless preconfigured.  Nothing else
+  changes: all other users keep their memberships, ranks, modes and pending invitations."
+
+  In the model every end of a connection goes through `teardown` (`remove_user` + drop of the
+  connection state): the stream-end events and QUIT set the `quit` flag and the settling phase tears
+  the flagged connection down; KILL / DIE set `killedBy`, which the settling phase turns into `quit`.
+  The theorems are stated for every world satisfying the global invariant.
+  Helper lemmas: Irc/Props/InvPropsLemmas.lean.
+-/
+import Irc.Props.InvPropsLemmas
+
 namespace Irc.C06
 open Irc
 
-/-- first obligation (the full theorem list of this property is added as the
-    invariant-preservation proofs land): the initial world has no users. -/
-theorem init_no_users (cfg : Cfg) : (World.init cfg).users = [] := rfl
+/-! ### the specification: what "torn down, and nothing else changed" means -/
+
+/-- `C'` is the channel `C` after `n` left: all settings are the same, every other member has the same
+    entry (flags) and the same presence in the five rank lists -/
+structure ChanKept (n : Str) (C C' : Channel) : Prop where
+  topic : C'.topic = C.topic
+  defaultModes : C'.defaultModes = C.defaultModes
+  banInfo : C'.banInfo = C.banInfo
+  preconfigured : C'.preconfigured = C.preconfigured
+  /-- ban / exception / invite-exception lists, key, limit and the five flags -/
+  settings : ({ C'.modes with operators := [], halfOperators := [], voices := [], founders := [],
+                               protecteds := [] } : ChannelModes) =
+             { C.modes with operators := [], halfOperators := [], voices := [], founders := [], protecteds := [] }
+  members : ∀ m, m ≠ n → Map.lookup m C'.users = Map.lookup m C.users
+  founders : ∀ m, m ≠ n → KSet.mem m C'.modes.founders = KSet.mem m C.modes.founders
+  protecteds : ∀ m, m ≠ n → KSet.mem m C'.modes.protecteds = KSet.mem m C.modes.protecteds
+  operators : ∀ m, m ≠ n → KSet.mem m C'.modes.operators = KSet.mem m C.modes.operators
+  halfOperators : ∀ m, m ≠ n → KSet.mem m C'.modes.halfOperators = KSet.mem m C.modes.halfOperators
+  voices : ∀ m, m ≠ n → KSet.mem m C'.modes.voices = KSet.mem m C.modes.voices
+
+/-- going from `w` to `w'`, the connection `c`, registered as `n` with user record `u`, has ended:
+    everything the property promises, and nothing else has changed -/
+structure TornDown (w w' : World) (c : Nat) (n : Str) (u : User) : Prop where
+  /-- the connection is gone; all other connections are literally unchanged -/
+  connGone : ∀ y, y ∈ w'.conns ↔ (y ∈ w.conns ∧ y.id ≠ c)
+  /-- its slot is free again -/
+  slotFreed : w'.connsCount + 1 = w.connsCount ∧ w'.connsCount = w'.conns.length
+  /-- the nickname is available again -/
+  nickFree : Map.lookup n w'.users = none
+  /-- not in the WALLOPS audience -/
+  notWallops : KSet.mem n w'.wallops = false
+  /-- on no roster and in no rank list -/
+  offRosters : ∀ ch C', Map.lookup ch w'.channels = some C' →
+    Map.contains n C'.users = false ∧ KSet.mem n C'.modes.founders = false ∧
+    KSet.mem n C'.modes.protecteds = false ∧ KSet.mem n C'.modes.operators = false ∧
+    KSet.mem n C'.modes.halfOperators = false ∧ KSet.mem n C'.modes.voices = false
+  /-- a WHOWAS record is appended -/
+  whowas : Map.lookup n w'.histories = some ((Map.lookup n w.histories).getD [] ++ [u.history])
+  /-- a channel vanishes exactly if the user was its only member and it is not preconfigured -/
+  vanish : ∀ ch C, Map.lookup ch w.channels = some C →
+    (Map.lookup ch w'.channels = none ↔
+      (C.preconfigured = false ∧ ∀ m, Map.contains m C.users = true ↔ m = n))
+  /-- no channel appears -/
+  chansKept : ∀ ch C', Map.lookup ch w'.channels = some C' →
+    ∃ C, Map.lookup ch w.channels = some C ∧ ChanKept n C C'
+  /-- every other user record is identical: memberships, modes, away, invitations, ... -/
+  otherUsers : ∀ m, m ≠ n → Map.lookup m w'.users = Map.lookup m w.users
+  otherWallops : ∀ m, m ≠ n → KSet.mem m w'.wallops = KSet.mem m w.wallops
+  otherHistories : ∀ m, m ≠ n → Map.lookup m w'.histories = Map.lookup m w.histories
+  maxUsers : w'.maxUsers = w.maxUsers
+  srvQuit : w'.srvQuit = w.srvQuit
+  /-- and the result is a consistent state again (counters exact, membership symmetric, ...) -/
+  inv : InvCore w'
+
+theorem chanKept_of {n : Str} {C C' : Channel} (h : Tear.ChanSameExcept n C C') : ChanKept n C C' := by
+  obtain ⟨a1, a2, a3, a4, b1, b2, b3, b4, b5, b6, b7, b8, b9, b10, m, r1, r2, r3, r4, r5⟩ := h
+  refine ⟨a1, a2, a3, a4, ?_, m, r1, r2, r3, r4, r5⟩
+  simp only [ChannelModes.mk.injEq, true_and]
+  exact ⟨b1, b2, b3, b4, b5, b6, b7, b8, b9, b10⟩
+
+/-! ### `teardown` does exactly that -/
+
+/-- the teardown of a live, registered connection -/
+theorem teardown_tears_down {w : World} (h : InvCore w) {cn : Conn} (hm : cn ∈ w.conns)
+    (ha : cn.authenticated = true) {n : Str} (hn : cn.nick = some n) :
+    ∃ u, Map.lookup n w.users = some u ∧ u.owner = cn.id ∧ TornDown w (teardown w cn.id) cn.id n u := by
+  obtain ⟨r1, r2, r3⟩ := teardown_removes_user h hm ha hn
+  obtain ⟨k1, k2, _, ⟨u, hu, ho, k4⟩, k5, k6⟩ := teardown_keeps_others h hm ha hn
+  obtain ⟨s1, s2, _⟩ := IP.teardown_connsCount h hm
+  refine ⟨u, hu, ho, ?_⟩
+  exact
+    { connGone := IP.teardown_mem_conns h hm
+      slotFreed := ⟨s1, s2⟩
+      nickFree := r1
+      notWallops := r2
+      offRosters := r3
+      whowas := k4
+      vanish := fun ch C hC => IP.teardown_vanish_iff h hm ha hn hC
+      chansKept := fun ch C' hC' => let ⟨C, hC, hs⟩ := k2 ch C' hC'; ⟨C, hC, chanKept_of hs⟩
+      otherUsers := k1
+      otherWallops := IP.teardown_wallops_others h hm ha hn
+      otherHistories := k5
+      maxUsers := k6
+      srvQuit := (IP.teardown_srvQuit h hm).1
+      inv := invCore_teardown h cn hm }
+
+theorem TornDown.of_eqUpToCounts {w w' w'' : World} {c : Nat} {n : Str} {u : User}
+    (t : TornDown w w' c n u) (e : IP.EqUpToCounts w'' w') : TornDown w w'' c n u := by
+  obtain ⟨e1, e2, e3, e4, e5, e6, e7, e8, e9, e10, e11⟩ := e
+  obtain ⟨t1, t2, t3, t4, t5, t6, t7, t8, t9, t10, t11, t12, t13, t14⟩ := t
+  refine ⟨?_, ?_, ?_, ?_, ?_, ?_, ?_, ?_, ?_, ?_, ?_, ?_, ?_, ?_⟩
+  · rw [e8]; exact t1
+  · rw [e8, e9]; exact t2
+  · rw [e1]; exact t3
+  · rw [e3]; exact t4
+  · rw [e2]; exact t5
+  · rw [e7]; exact t6
+  · rw [e2]; exact t7
+  · rw [e2]; exact t8
+  · rw [e1]; exact t9
+  · rw [e3]; exact t10
+  · rw [e7]; exact t11
+  · rw [e6]; exact t12
+  · rw [e10]; exact t13
+  · exact Modes.invCore_of_fields t14 e11 e1 e2 e8 e4 e5 e3 e6 e9
+
+/-! ### every way a connection ends itself -/
+
+/-- **C06, main theorem.**  In a world satisfying the invariant, let `cn` be a live connection
+    registered as `n`.  For each of the events EOF, connection reset, undecodable input, over-long
+    line and the line `QUIT` (`IP.EndsItself`), the resulting world is `w` with the user torn down
+    (`TornDown`), and it satisfies the invariant again. -/
+theorem every_ending_tears_down {cfg : Cfg} {w : World} (h : Inv w) {cn : Conn} (hm : cn ∈ w.conns)
+    (ha : cn.authenticated = true) {n : Str} (hn : cn.nick = some n) {e : Event}
+    (he : IP.EndsItself cn.id e) :
+    ∃ u, Map.lookup n w.users = some u ∧ u.owner = cn.id ∧ TornDown w (step cfg w e).w cn.id n u := by
+  obtain ⟨u, hu, ho, t⟩ := teardown_tears_down h.toInvCore hm ha hn
+  exact ⟨u, hu, ho, t.of_eqUpToCounts (IP.step_self_end h hm he)⟩
+
+/-- the four stream-end events are literally one `teardown` -/
+theorem stream_end_is_teardown {cfg : Cfg} {w : World} (h : Inv w) {cn : Conn} (hm : cn ∈ w.conns)
+    {e : Event} (he : IP.IsEnd cn.id e) : (step cfg w e).w = teardown w cn.id :=
+  IP.step_end_w h hm he
+
+/-- QUIT is one `teardown` plus the STATS count of the command -/
+theorem quit_is_teardown {cfg : Cfg} {w : World} (h : Inv w) {cn : Conn} (hm : cn ∈ w.conns) {s : Str}
+    (hq : IP.IsQuitLine s) :
+    (step cfg w (.line cn.id s)).w = bumpCount (teardown w cn.id) CmdId.QUIT.index :=
+  IP.step_quit_w h hm hq
+
+/-! ### KILL / DIE: a connection whose kill signal has fired -/
+
+/-- the settling step of a connection whose `killedBy` is set (KILL, DIE) or whose `quit` flag is set
+    is its teardown -/
+theorem killed_conn_torn_down {w : World} (h : InvCore w) {cn : Conn} (hm : cn ∈ w.conns)
+    (hk : cn.killedBy.isSome = true ∨ cn.quit = true)
+    (ha : cn.authenticated = true) {n : Str} (hn : cn.nick = some n)
+    (cfg : Cfg) (outs : List (Nat × Str)) (evs : List Str) :
+    (settleConn cfg (w, outs, evs) cn.id).1 = teardown w cn.id ∧
+    ∃ u, Map.lookup n w.users = some u ∧ u.owner = cn.id ∧
+      TornDown w (settleConn cfg (w, outs, evs) cn.id).1 cn.id n u := by
+  have hf : IP.flagged cn = true := by
+    unfold IP.flagged; rcases hk with hk | hk <;> simp [hk]
+  have e : (settleConn cfg (w, outs, evs) cn.id).1 = teardown w cn.id := by
+    rw [Tear.settleConn_w]; exact IP.settleW_of_flagged h hm hf
+  refine ⟨e, ?_⟩
+  rw [e]
+  exact teardown_tears_down h hm ha hn
+
+/-- **KILL, the whole operation.**  In a world satisfying the invariant let the registered connection
+    `co` belong to an IRC operator `k`, and let `n` be a registered nickname (user record `u`, owned by
+    the connection `cn`; `cn = co` is allowed).  After the operation in which `co` sends a line that
+    parses to `KILL n comment`, the user `n` has been torn down and nothing else has changed. -/
+theorem kill_tears_down {cfg : Cfg} {w : World} (h : Inv w) {co : Conn} (hco : co ∈ w.conns)
+    (hca : co.authenticated = true) {k : Str} (hck : co.nick = some k) {uk : User}
+    (huk : Map.lookup k w.users = some uk) (hop : uk.modes.oper = true)
+    {n : Str} {u : User} (hu : Map.lookup n w.users = some u) {s comment : Str}
+    (hk : IP.IsKillLine s n comment) :
+    ∃ cn, cn ∈ w.conns ∧ cn.id = u.owner ∧ TornDown w (step cfg w (.line co.id s)).w cn.id n u := by
+  obtain ⟨cn, hcn, hown, hcna, hcnn⟩ := h.userOwned n u hu
+  refine ⟨cn, hcn, hown, ?_⟩
+  obtain ⟨hi, hm', e⟩ := IP.step_kill_w (cfg := cfg) h hco hca hck huk hop hu hcn hown hk
+  rw [e]
+  obtain ⟨u', hu', _, t⟩ := teardown_tears_down hi hm' (n := n) hcna hcnn
+  have hu'' : u' = { u with killed := true } := by
+    have : Map.lookup n (IP.killedWorld w k comment n u cn).users = some { u with killed := true } :=
+      Map.lookup_insert_eq _ _ _
+    rw [hu'] at this; cases this; rfl
+  subst hu''
+  have hmem := Reg.mem_setConn (w := ({ bumpCount w CmdId.KILL.index with
+      users := Map.insert n { u with killed := true } w.users } : World))
+      (cn := cn) (cn' := { cn with killedBy := some (k, comment) }) hcn rfl
+  obtain ⟨t1, t2, t3, t4, t5, t6, t7, t8, t9, t10, t11, t12, t13, t14⟩ := t
+  refine ⟨?_, t2, t3, t4, t5, t6, t7, t8, ?_, t10, t11, t12, t13, t14⟩
+  · intro y
+    rw [t1 y]
+    constructor
+    · rintro ⟨hy, hne⟩
+      rcases (hmem y).mp hy with rfl | ⟨hy', _⟩
+      · exact absurd rfl hne
+      · exact ⟨hy', hne⟩
+    · rintro ⟨hy, hne⟩
+      exact ⟨(hmem y).mpr (Or.inr ⟨hy, hne⟩), hne⟩
+  · intro m hne
+    rw [t9 m hne]
+    exact Map.lookup_insert_ne _ _ _ _ (fun e => hne e.symm)
+
+/-! ### several connections ending in the same operation -/
+
+/-- The settling phase with any number of flagged connections (e.g. after DIE, or a KILL of the
+    sender itself together with a pending kill of somebody else):
+    * exactly the flagged connections disappear, all others are literally unchanged;
+    * the nick of every flagged registered connection is free afterwards (and hence on no roster and
+      in no rank list, by the invariant of the result);
+    * every user whose connection is not flagged keeps its record unchanged;
+    * the result satisfies the full invariant. -/
+theorem several_at_once {w : World} (h : InvCore w) (cfg : Cfg) (outs : List (Nat × Str)) (evs : List Str) :
+    Inv (settle cfg w outs evs).1 ∧
+    (∀ y, y ∈ (settle cfg w outs evs).1.conns ↔ (y ∈ w.conns ∧ y.quit = false ∧ y.killedBy = none)) ∧
+    (∀ cn n, cn ∈ w.conns → (cn.quit = true ∨ cn.killedBy.isSome = true) → cn.authenticated = true →
+      cn.nick = some n →
+      Map.lookup n (settle cfg w outs evs).1.users = none ∧
+      KSet.mem n (settle cfg w outs evs).1.wallops = false ∧
+      ∀ ch C', Map.lookup ch (settle cfg w outs evs).1.channels = some C' → Map.contains n C'.users = false) ∧
+    (∀ m u, Map.lookup m w.users = some u →
+      (∀ y, y ∈ w.conns → y.id = u.owner → y.quit = false ∧ y.killedBy = none) →
+      Map.lookup m (settle cfg w outs evs).1.users = some u) := by
+  obtain ⟨hi, hc⟩ := inv_settle h cfg outs evs
+  refine ⟨hi, hc, ?_, ?_⟩
+  · intro cn n hm hf ha hn
+    have hf' : IP.flagged cn = true := by
+      unfold IP.flagged; rcases hf with hf | hf <;> simp [hf]
+    have hnone := IP.settle_flagged_gone h cfg outs evs hm hf' ha hn
+    refine ⟨hnone, ?_, ?_⟩
+    · cases hw : KSet.mem n (settle cfg w outs evs).1.wallops with
+      | false => rfl
+      | true =>
+        obtain ⟨u', hu', _⟩ := (hi.wallopsSet n).mp hw
+        rw [hnone] at hu'; cases hu'
+    · intro ch C' hC'
+      cases hcc : Map.contains n C'.users with
+      | false => rfl
+      | true =>
+        have := hi.memberIsUser ch C' n hC' hcc
+        rw [Map.contains_iff] at this
+        obtain ⟨v, hv⟩ := this
+        rw [hnone] at hv; cases hv
+  · intro m u hu hf
+    exact IP.settle_lookup_unflagged h cfg outs evs hu (fun y hy ho => IP.flagged_false.mpr (hf y hy ho))
+
+/-- every connection that ends frees exactly its slot: after the settling phase the slot counter is
+    the number of remaining connections, and it went down by the number of flagged connections -/
+theorem slot_freed {w : World} (h : InvCore w) (cfg : Cfg) (outs : List (Nat × Str)) (evs : List Str) :
+    (settle cfg w outs evs).1.connsCount = (settle cfg w outs evs).1.conns.length ∧
+    (settle cfg w outs evs).1.connsCount + (w.conns.filter (fun y => y.quit || y.killedBy.isSome)).length
+      = w.connsCount :=
+  let ⟨a, _, c⟩ := IP.settle_slots h cfg outs evs
+  ⟨a, c⟩
+
+/-- a single teardown frees one slot -/
+theorem slot_freed_one {w : World} (h : InvCore w) {cn : Conn} (hm : cn ∈ w.conns) :
+    (teardown w cn.id).connsCount + 1 = w.connsCount ∧
+    (teardown w cn.id).connsCount = (teardown w cn.id).conns.length :=
+  let ⟨a, b, _⟩ := IP.teardown_connsCount h hm
+  ⟨a, b⟩
+
+/-! ### non-vacuity -/
+
+section Examples
+open Tear
+
+/-- user `a` (invisible, +w, operator of `#a` and of the preconfigured `#p`), user `b` (member of `#p`),
+    connection 3 unregistered -/
+def exA : User :=
+  { hostname := str "h", name := str "a", realname := str "r", source := str "a!~a@h",
+    modes := { invisible := true, wallops := true }, channels := [str "#a", str "#p"],
+    history := ⟨str "a", str "h", str "r"⟩, owner := 1 }
+def exB : User :=
+  { hostname := str "g", name := str "b", realname := str "s", source := str "b!~b@g",
+    modes := {}, channels := [str "#p"], invitedTo := [str "#x"], away := some (str "gone"),
+    history := ⟨str "b", str "g", str "s"⟩, owner := 2 }
+def exC (id : Nat) (n : String) : Conn :=
+  { id := id, hostname := str "h", nick := some (str n), name := some (str n), source := str n,
+    authenticated := true, hasSender := false, hasQuitSender := false, hasPingSender := false }
+def exW : World :=
+  { users := [(str "a", exA), (str "b", exB)]
+    channels := [(str "#a", { users := [(str "a", { operator := true })], modes := { operators := [str "a"] } }),
+                 (str "#p", { users := [(str "a", { operator := true }), (str "b", { voice := true })],
+                              modes := { operators := [str "a"], voices := [str "b"], secret := true },
+                              preconfigured := true })]
+    wallops := [str "a"], invisibleCount := 1, maxUsers := 2
+    conns := [exC 1 "a", exC 2 "b", Conn.new 3 (str "i")], connsCount := 3 }
+
+-- the executable check of the invariant accepts the example world (the hypotheses are satisfiable)
+example : invCoreCheck exW = [] := by decide
+
+-- EOF of connection 1: `a` is gone everywhere, `#a` vanished, `#p` (preconfigured) stays with `b`
+-- keeping its voice; `b`'s record (membership, away, invitation) is untouched; WHOWAS record kept
+example :
+    let w' := (step {} exW (.eof 1)).w
+    w'.conns.map (·.id) = [2, 3] ∧ w'.connsCount = 2 ∧
+    Map.lookup (str "a") w'.users = none ∧ w'.wallops = [] ∧ w'.invisibleCount = 0 ∧
+    Map.lookup (str "#a") w'.channels = none ∧
+    (Map.lookup (str "#p") w'.channels).map (fun C => (C.users, C.modes.operators, C.modes.voices, C.modes.secret)) =
+      some ([(str "b", { voice := true })], [], [str "b"], true) ∧
+    Map.lookup (str "b") w'.users = some exB ∧
+    Map.lookup (str "a") w'.histories = some [exA.history] := by decide
+
+-- the same for QUIT, reset, bad UTF-8, over-long line
+example : (step {} exW (.line 1 (str "QUIT :bye"))).w.users = [(str "b", exB)] ∧
+    (step {} exW (.reset 1)).w.users = [(str "b", exB)] ∧
+    (step {} exW (.badUtf8 1)).w.users = [(str "b", exB)] ∧
+    (step {} exW (.tooLong 1)).w.users = [(str "b", exB)] := by decide
+
+-- both users flagged at once (pending kill of `a`, `b` quitting): both are removed, the unregistered
+-- connection 3 stays
+example :
+    let w1 := (exW.setConn { exC 1 "a" with killedBy := some (str "b", str "x") }).setConn
+      { exC 2 "b" with quit := true }
+    (settle {} w1 [] []).1.users = [] ∧ (settle {} w1 [] []).1.conns.map (·.id) = [3] ∧
+    (settle {} w1 [] []).1.connsCount = 1 ∧
+    (Map.lookup (str "#p") (settle {} w1 [] []).1.channels).map (·.users) = some [] := by decide
+
+-- KILL: the operator `a` (made operator by OPER first) kills `b`
+example : IP.IsKillLine (str "KILL b :bye") (str "b") (str "bye") :=
+  ⟨⟨none, str "KILL", [str "b", str "bye"]⟩, by decide, by decide⟩
+example :
+    let cfg : Cfg := { operators := [{ name := str "root", password := str "pw", mask := none }] }
+    let w1 := (step cfg exW (.line 1 (str "OPER root pw"))).w
+    let w2 := (step cfg w1 (.line 1 (str "KILL b :bye"))).w
+    (Map.lookup (str "a") w1.users).map (·.modes.oper) = some true ∧
+    Map.keys w2.users = [str "a"] ∧ w2.conns.map (·.id) = [1, 3] ∧
+    (Map.lookup (str "#p") w2.channels).map (fun C => Map.keys C.users) = some [str "a"] ∧
+    Map.lookup (str "b") w2.histories = some [exB.history] := by decide
+
+-- the theorems applied to a world known to satisfy `Inv`
+example : ∃ u, Map.lookup (str "a") exWorld.users = some u ∧ u.owner = exConn1.id ∧
+    TornDown exWorld (step {} exWorld (.eof 1)).w exConn1.id (str "a") u :=
+  every_ending_tears_down exWorld_inv (cn := exConn1) (by decide) rfl rfl (Or.inl .eof)
+
+end Examples
+
+/-! ### reachable worlds -/
+section Reachable
+
+theorem reachable_every_ending_tears_down {cfg : Cfg} {evs : List Event} (hs : SchedAll cfg evs)
+    {cn : Conn} (hm : cn ∈ (run cfg evs).conns) (ha : cn.authenticated = true) {n : Str}
+    (hn : cn.nick = some n) {e : Event} (he : IP.EndsItself cn.id e) :
+    ∃ u, Map.lookup n (run cfg evs).users = some u ∧ u.owner = cn.id ∧
+      TornDown (run cfg evs) (run cfg (evs ++ [e])) cn.id n u := by
+  have := every_ending_tears_down (cfg := cfg) (inv_run hs) hm ha hn he
+  unfold run at this ⊢
+  rw [List.foldl_append]
+  exact this
+
+end Reachable
 
 end Irc.C06
